@@ -67,11 +67,11 @@ gen_claim("C05", "Theorems rule_condition_exact / C05_string (+ the numeric case
 gen_claim("C06", "Theorems IsValidAlpha_exact / IsNumeric_exact (Helpers/AlnumProofs.v) and C11-C13 for the recognizers; per-run certificates and "
           "differential for the seven format markers at top level, combined with required/length markers, and nested two levels deep; ipv4/ipv6 "
           "are defined by net.ParseIP (oracle, evaluated by the standard library on the corpus strings).", "DESIGN.md §5 C06")
-gen_claim("C07", "Theorem C07_report_exact (gen_exact): for every declaration in the decidable guard (outside the known-finding classes D7-D10) and every well-typed receiver, the generated code returns nil iff no rule is violated and otherwise exactly one entry per violated rule with the right Path, Type and Value, in order; C07_nil_receiver; C07_sentinels; refuted witnesses for D7 and D10 by computation. validator_sound turns each per-run certificate into that theorem about the file govalid actually emitted. Per-run certificates and differential on random structs (1-12 fields, 0-4 markers, nesting <= 2): the compiled validator's report "
+gen_claim("C07", "Theorem C07_report_exact (gen_exact): for every declaration in the decidable guard (outside the known-finding classes D7-D10) and every well-typed receiver, the generated code returns nil iff no rule is violated and otherwise exactly one entry per violated rule with the right Path, Type and Value, in order; C07_report_exact_typed (the same without the 'ill-typed' alternative, under the decidable params_ok: every marker parameter in the documented language); C07_nil_receiver; C07_sentinels; refuted witnesses for D7 and D10 by computation. validator_sound turns each per-run certificate into that theorem about the file govalid actually emitted. Per-run certificates and differential on random structs (1-12 fields, 0-4 markers, nesting <= 2): the compiled validator's report "
           "equals expected(d, v) as a multiset of (Path, Type, Value-matches-field), nil receiver yields ErrNil<T>, and errors.Is over every exported "
           "sentinel (directly and through %w) agrees with the report. Known findings D7-D10 are recognized by the Coq class predicates of Gen/Guard.v.",
           "DESIGN.md §5 C07")
-gen_claim("C08", "Theorems C08_no_missing_declaration (for EVERY declaration: each error variable a check copies, and the nil sentinel, is declared by the var block), C08_no_duplicate_declaration_flat (flat structs whose field names do not differ by a trailing Min/Max: declared names pairwise distinct, from a table of the 19 rule suffixes), C08_file_shape, C08_generation_total, C08_emitted_file (the same about the emitted file given the run's certificate), refuted witnesses for D9/D20; both conclusions are also evaluated on every translated real file. Beyond the naming scheme the Go compiler is the decision procedure: per-run certificates plus every corpus package (several structs and files per package, up to "
+gen_claim("C08", "Theorems C08_no_missing_declaration (for EVERY declaration: each error variable a check copies, and the nil sentinel, is declared by the var block), C08_no_duplicate_declaration_flat (flat structs whose field names do not differ by a trailing Min/Max: declared names pairwise distinct, from a table of the 19 rule suffixes), C08_file_shape, C08_generation_total, C08_documented_parameters_are_well_typed / C08_condition_well_typed (no emitted condition is ill-typed for documented parameters), C08_output_files_distinct, C08_emitted_file (the same about the emitted file given the run's certificate), refuted witnesses for D9/D20; both conclusions are also evaluated on every translated real file. Beyond the naming scheme the Go compiler is the decision procedure: per-run certificates plus every corpus package (several structs and files per package, up to "
           "40 fields, nesting <= 3, parameters needing escaping) must build together with compile-time assertions that *T implements govalid.Validator "
           "and govalid.ContextValidator, pass go vet and be gofmt-clean; 46 CEL rules covering every import heuristic must generate, build and vet. Partial w.r.t. the full Go type checker, imports.Process and format.Source (not modelled); no distinctness theorem for nested structs.", "DESIGN.md §5 C08")
 gen_claim("C09", "Theorems C09_no_gap (a violated written rule is never answered with nil), C09_inapplicable_harmless, on top of gen_exact. Per-run certificates and differential over declaration shapes: struct-level vs per-field placement of the same markers (compared "
